@@ -499,6 +499,11 @@ func (e *Enc) callContract(fr *Frame, ct callTarget, args []Val, common *ssa.Cal
 	}
 	res := e.resultVal("res."+sanitize(callee), ct.sig, post)
 	results := tupleOf(res, ct.sig.Results().Len())
+	for _, rv := range results {
+		if rv.T != "" && rv.Typ != nil {
+			e.assumeNotLocal(fr, rv.T, rv.Typ)
+		}
+	}
 	// ensures
 	var lemmaReq, lemmaEns []*Clause
 	for _, rq := range con.Requires {
@@ -556,7 +561,7 @@ func (e *Enc) applyModifies(fr *Frame, con *Contract, mkctx func(*State, []Val) 
 				fail("modifies: unknown type in %s", target)
 			}
 			stateSorts[e.B.heapName(t)] = e.B.heapSort(t)
-			st.m[e.B.heapName(t)] = e.B.declConst(e.B.heapName(t), e.B.heapSort(t))
+			st.m[e.B.heapName(t)] = e.baseHeap(st, e.B.heapName(t), "", e.B.heapSort(t))
 		case strings.HasPrefix(target, "map(") && strings.HasSuffix(target, ")"):
 			x, err := parseExpr(target[4 : len(target)-1])
 			if err != nil {
@@ -605,6 +610,7 @@ func (e *Enc) havocArray(st *State, elem types.Type, ref Term) {
 }
 
 func (e *Enc) havocAll(st *State, ghosts bool) {
+	e.havocAlloc(st) // first: the heap invariant of the havocked heaps refers to it
 	st.epoch = e.B.freshName("ep")
 	if ghosts {
 		for _, g := range append(append([]string{}, e.CS.GhostOrder...), "sends", "nilsends", "recvs") {
@@ -627,7 +633,7 @@ func (e *Enc) havocAll(st *State, ghosts bool) {
 	for _, k := range ks {
 		if strings.HasPrefix(k, "HS.") || strings.HasPrefix(k, "HM.") || (ghosts && strings.HasPrefix(k, "ghost.")) {
 			if srt, ok := stateSorts[k]; ok {
-				st.m[k] = e.B.declConst(k+"@havoc", srt)
+				st.m[k] = e.baseHeap(st, k, "@havoc", srt)
 			}
 		}
 	}
@@ -719,7 +725,7 @@ func (e *Enc) havocReachable(st *State, t types.Type, seen map[string]bool) {
 		}
 		seen[k] = true
 		stateSorts[k] = e.B.heapSort(u.Elem())
-		st.m[k] = e.B.declConst(k+"@havoc", e.B.heapSort(u.Elem()))
+		st.m[k] = e.baseHeap(st, k, "@havoc", e.B.heapSort(u.Elem()))
 		e.havocReachable(st, u.Elem(), seen)
 	case *types.Slice:
 		k := e.B.heapName(u.Elem())
@@ -728,7 +734,7 @@ func (e *Enc) havocReachable(st *State, t types.Type, seen map[string]bool) {
 		}
 		seen[k] = true
 		stateSorts[k] = e.B.heapSort(u.Elem())
-		st.m[k] = e.B.declConst(k+"@havoc", e.B.heapSort(u.Elem()))
+		st.m[k] = e.baseHeap(st, k, "@havoc", e.B.heapSort(u.Elem()))
 		e.havocReachable(st, u.Elem(), seen)
 	case *types.Array:
 		e.havocReachable(st, u.Elem(), seen)
@@ -1137,6 +1143,7 @@ func (e *Enc) encodeAppend(fr *Frame, common *ssa.CallCommon, args []Val, st *St
 		addLen = "(strlen " + add.T + ")" // append([]byte, string...)
 	}
 	newLen := e.B.define("applen", "Int", fmt.Sprintf("(+ (slen %s) %s)", s.T, addLen))
+	e.appendOwnership(fr, common, s, newLen, st, reach)
 	na := e.B.declConst("appended", "(Array Int "+es+")")
 	qi := e.B.freshName("ai")
 	if addIsSlice {
@@ -1145,6 +1152,20 @@ func (e *Enc) encodeAppend(fr *Frame, common *ssa.CallCommon, args []Val, st *St
 	} else {
 		e.B.assume(fmt.Sprintf("(forall ((%s Int)) (! (=> (and (<= 0 %s) (< %s (slen %s))) (= (select %s %s) (select (select %s (sarr %s)) (+ (soff %s) %s)))) :pattern ((select %s %s))))",
 			qi, qi, qi, s.T, na, qi, h, s.T, s.T, qi, na, qi))
+	}
+	// the same facts triggered from the operands' side: every element of the old
+	// slice (and of the appended one) is found in the result
+	if e.con != nil && e.con.HeapFacts {
+		oldArr := e.B.define("appold", "(Array Int "+es+")", fmt.Sprintf("(select %s (sarr %s))", h, s.T))
+		qb := e.B.freshName("ab")
+		e.B.assume(fmt.Sprintf("(forall ((%s Int)) (! (=> (and (<= (soff %s) %s) (< %s (+ (soff %s) (slen %s)))) (= (select %s %s) (select %s (- %s (soff %s))))) :pattern ((select %s %s))))",
+			qb, s.T, qb, qb, s.T, s.T, oldArr, qb, na, qb, s.T, oldArr, qb))
+		if addIsSlice {
+			addArr := e.B.define("appadd", "(Array Int "+es+")", fmt.Sprintf("(select %s (sarr %s))", h, add.T))
+			qc := e.B.freshName("ac")
+			e.B.assume(fmt.Sprintf("(forall ((%s Int)) (! (=> (and (<= (soff %s) %s) (< %s (+ (soff %s) (slen %s)))) (= (select %s %s) (select %s (+ (slen %s) (- %s (soff %s)))))) :pattern ((select %s %s))))",
+				qc, add.T, qc, qc, add.T, add.T, addArr, qc, na, s.T, qc, add.T, addArr, qc))
+		}
 	}
 	e.set(st, e.B.heapName(elem), e.B.heapSort(elem), fmt.Sprintf("(store %s %s %s)", h, ref, na))
 	cp := e.B.declConst("appcap", "Int")
